@@ -18,6 +18,7 @@ def catalogue(name, **kw):
     if name == "T4-c0": return tissue.star(4, **kw).without_cells(["c0"])
     if name == "single": return tissue.single_cell()
     if name == "T3+pendant": return tissue.star_pendant(**{k: v for k, v in kw.items() if k != "n_border"})
+    if name == "T3+2pendants": return tissue.star_pendant(pendants=2, **{k: v for k, v in kw.items() if k != "n_border"})
     raise KeyError(name)
 
 
